@@ -115,15 +115,16 @@ def fft_read_bound(m):
 def rule_counter(rep, tname, m):
     R = "R-C04-counter"
     rin, rout = ret_pair(m)
-    ok = rout.get("k") == "havoc" and rout.get("why", "").endswith(":n")
-    rep.ob(R, tname, ok, "fixed-input types must return the frame counter `n` of the loop as the output count (got %s)" % show(rout), loc(m["fn"]),
+    NV = m["roles"]["n"]
+    ok = NV is not None and rout.get("k") == "havoc" and rout.get("why", "").endswith(":" + NV)
+    rep.ob(R, tname, ok, "fixed-input types must return the frame counter of the loop (the write index `%s`) as the output count (got %s)" % (NV, show(rout)), loc(m["fn"]),
            sample={"type": tname, "returned_out": show(rout)})
     for a in m["arms"]:
-        ups = [s for s in a["steps"] if s[0] == "update" and s[1] == "n"]
+        ups = [s for s in a["steps"] if s[0] == "update" and s[1] == NV]
         order = [s[0] for s in a["steps"]]
         ok = len(ups) == 1 and ups[0][2] == "+" and nbit(ups[0][3]) == "i:1" and order.index("chanloop") < a["steps"].index(ups[0])
         w = a.get("writes", [])
-        widx_ok = len(w) == 1 and any((x.get("k") == "index" and is_path(x["i"], "n")) or (x.get("k") == "mcall" and x["name"] == "get_unchecked_mut" and x["args"] and is_path(x["args"][0], "n")) for x in walk(w[0]["lhs_raw"]))
+        widx_ok = len(w) == 1 and any((x.get("k") == "index" and is_path(x["i"], NV)) or (x.get("k") == "mcall" and x["name"] == "get_unchecked_mut" and x["args"] and is_path(x["args"][0], NV)) for x in walk(w[0]["lhs_raw"]))
         rep.ob(R, "%s/%s" % (tname, a["variant"]), ok and widx_ok, "n is incremented exactly once per frame, after the frame was written at [n]", loc(m["fn"], a["node"]))
 
 
@@ -156,7 +157,7 @@ def rule_outbound(rep, tname, m):
         # a lower clamp `.max(0.0)` only enlarges the estimate: drop it
         real = real.replace(max_f, lambda a, b: a if b == 0 else (b if a == 0 else max_f(a, b)))
         r, t, li = alg.sym("resample_ratio"), alg.sym("target_ratio"), alg.sym("last_index")
-        end = alg.conv(m["locals"]["end_idx"])
+        end = alg.conv(m["roles"]["end"])
         want = (end - li) * max_f(r, t)
         d = sp.simplify(real.replace(max_f, lambda a, b: max_f(*sorted((a, b), key=str))) - want.replace(max_f, lambda a, b: max_f(*sorted((a, b), key=str))))
         ok = (not d.free_symbols - set()) and d.is_number and d >= 1
